@@ -38,6 +38,7 @@ SCreateBlob  == More /\ E.a = "CreateBlob" /\ CreateBlob(B(E.b), E.c) /\ Adv([E 
 SRewrite     == More /\ E.a = "Rewrite" /\ Rewrite(E.b, E.x) /\ Adv(E)
 SAppend      == More /\ E.a = "Append" /\ Append_(E.b, E.x) /\ Adv(E)
 SConsumeFile == More /\ E.a = "ConsumeFile" /\ ConsumeFile(E.b, E.x) /\ Adv(E)
+SConsumeFail == More /\ E.a = "ConsumeFail" /\ ConsumeFail(E.b) /\ Adv(E)
 SModifyP     == More /\ E.a = "ModifyP" /\ ModifyP(E.v) /\ Adv(E)
 SSavepoint   == More /\ E.a = "Savepoint" /\ Savepoint /\ Adv(E)
 SRollback    == More /\ E.a = "Rollback" /\ Rollback(E.k) /\ Adv(E)
@@ -55,7 +56,7 @@ SOtherCommit == More /\ E.a = "OtherCommit" /\ OtherCommit(E.o, E.x) /\ Adv(E)
 SUBegin      == More /\ E.a = "UBegin" /\ UBegin(KTid(E.t)) /\ Adv([E EXCEPT !.t = KTid(E.t)])
 SPack        == More /\ E.a = "Pack" /\ Pack(KTid(E.T)) /\ Adv([E EXCEPT !.T = KTid(E.T)])
 
-SStep == \/ SCreateBlob \/ SRewrite \/ SAppend \/ SConsumeFile \/ SModifyP \/ SSavepoint \/ SRollback \/ SAbortTxn
+SStep == \/ SCreateBlob \/ SRewrite \/ SAppend \/ SConsumeFile \/ SConsumeFail \/ SModifyP \/ SSavepoint \/ SRollback \/ SAbortTxn
          \/ STpcBegin \/ SStoreOK \/ SStoreFail \/ SUStoreOK \/ SUStoreFail \/ SVote \/ SFinish \/ SConnAbort
          \/ STpcAbort \/ SOtherCommit \/ SUBegin \/ SPack
 \* (the enabling condition of Pack is written out: ENABLED would evaluate the packer a second time)
